@@ -30,9 +30,50 @@ _GEN_NOTE = (" Regenerated definitions: int8 is modelled as Int with wrap8 after
              "translatable (tak.Position) are replaced by the fields / accessor results the function reads; a function that leaves the translator's subset breaks the "
              "obligation `gen` of exactly the properties that use its generated file (others keep the last good file). The translation scheme itself is trusted and "
              "validated on every run by fn.* ops (regenerated definition vs real function).")
+# Second round (work package "gen2"): slice-reading and slice-building functions, Go's index panics explicit.
+_GEN2_TEXT = {
+    "C01": (" SECOND ROUND (Generated/FuncsPos.lean, bridged in Props/C01_gen2.lean): Position.Top and Position.At - the two functions through which the list-level view of a "
+            "position reads the bitboards, Height and Stacks - are regenerated with Go's index panics explicit (result Option, none = panic): top_is_source (for every x, y with "
+            "x + y*size = i < 2^64: the regenerated Top is the model's topAt i), at_is_source (on every square inside Height/Stacks whose stack is non-empty when a colour bit is set, "
+            "the regenerated At - make, sq[0] = Top, the loop of element assignments - returns the model's squareAt i as Go bytes), at_panics (a colour bit over Height 0 is Go's panic)."),
+    "C02": (" SECOND ROUND (Generated/FuncsRoad.lean, bridged in Props/C02_gen2.lean): Position.hasRoad (the two loops over the group slices with their breaks) and bitboard.FloodGroups "
+            "(the loop over the set bits with its appends, calling the regenerated Flood) are regenerated: hasRoad_is_source (all positions), gameOver_is_source_full (the model's gameOver "
+            "is the regenerated GameOver applied to the regenerated hasRoad: nothing of the game-end decision is a hand-written mirror any more), floodGroups_is_source (the model's group "
+            "enumeration is the regenerated function; whitelist fuel 66 = the model's 65 + 1), analyze_is_source (the stored group lists are the regenerated FloodGroups of the road pieces), "
+            "winDetails_is_source (Position.WinDetails - over?, winner, road or flats, the flat counts - is the regenerated function of the fields and the regenerated hasRoad)."),
+    "C03": (" REGENERATED on every run (Generated/FuncsMoveGen.lean) and bridged in Props/C03_gen.lean: tak.MkSlides, calculateSlides, the init that fills the `slides` table, and "
+            "Position.AllMoves itself (four nested loops, appends, continues, the index reads p.Height[i] and slides[h], a local struct type and an array literal), with Go's index panics "
+            "explicit. slidesInit_is_source: the table the regenerated init builds from the zero value IS the model's slidesTable (kernel evaluation of the finite table). "
+            "allMoves_is_source: for EVERY position of a board of size <= 8 whose Height slice covers the board (all that alloc builds) the regenerated AllMoves(nil) does not panic and "
+            "returns the model's Pos.allMoves, move for move, in the same order - so the completeness / no-duplicate / on-board theorems are theorems about the function gen reads out of "
+            "tak/move.go (gen_allMoves_complete, gen_allMoves_sound, gen_allMoves_total). The fn.allmoves op compares the regenerated generator with the real one in generation ORDER (not sorted), "
+            "also with a non-empty slice to append to; fn.slidesinit / fn.calcslides / fn.mkslides compare the table, its rows (incl. byte(stack) wrap-around and out-of-range rows) and MkSlides (incl. its panic)."),
+    "C06": (" REGENERATED on every run (Generated/FuncsProve.lean) and bridged in Props/C06_gen.lean: DFPNSolver.terminalBounds (terminalBounds_is_source: for any game whose side to move is "
+            "read from the ply as Position.ToMove does, any attacker and result, the regenerated function does not panic and returns the model's bounds; INFINITY is evaluated from the source) "
+            "and the flag readers of the proof-number node, expanded / andNode / proof / disproof (nodeFlags_is_source: the int8 bit tests read the model's three booleans; the flag constants "
+            "come from Facts). The fn.termbounds / fn.nodeflags ops run them against the real functions (all 256 flag bytes; panicking attackers)."),
+    "C08": (" SECOND ROUND (Generated/FuncsPos.lean, bridged in Props/C08_gen2.lean): Position.hashAt (reads Height[i], Stacks[i] and the Zobrist table basis[i], a package-level variable = a "
+            "parameter of the regenerated function) and Position.Equal (field comparisons and the loop over Height/Stacks with its early return) are regenerated with Go's index panics explicit: "
+            "hashAt_is_source / hashAt_panics, equal_is_source (the model's equal is the regenerated function whenever the Height/Stacks slices of both positions cover len(p.Height), "
+            "as alloc guarantees)."),
+    "C14": (" SECOND ROUND (Generated/FuncsSymMove.lean, bridged in Props/C14_gen2.lean): symmetry.TransformMove itself is regenerated (function-typed parameter, struct copy with field update, "
+            "the panicking callees MkSlides(1) and Dest(), the default: panic arm): transformMove_is_source - for every composition s of the eight regenerated maps and every move whose type is a "
+            "byte, the model's transformMove is the regenerated function applied to s (an error of the model = none = a Go panic)."),
+}
+_GEN2_NOTE = (" Second-round conventions of the translator: slices/arrays are Lean Arrays; an index read is `getD` AFTER an explicit guard in front of the statement, so the regenerated function "
+              "returns none exactly where Go panics (index out of range, explicit panic, a panicking callee, a `<=` loop over a byte that never ends, fuel of a general loop exhausted); "
+              "`&&`/`||` keep their short-circuit meaning in the guards; range loops are structural recursion over the list, counted loops recursion on the exact iteration count; package-level "
+              "variables are explicit parameters (the fn.* ops pass the real values); uint is Nat (no wrap-around), uint(v) of a negative v is v mod 2^64.")
 for _pid, _t in _GEN_TEXT.items():
     if _pid in LEVEL:
         LEVEL[_pid]["text"] += _t
         LEVEL[_pid]["note"] += _GEN_NOTE
+        if "regenerated from the Go source" not in LEVEL[_pid]["technique"]:
+            LEVEL[_pid]["technique"] += _GEN_TECH
+for _pid, _t in _GEN2_TEXT.items():
+    if _pid in LEVEL:
+        LEVEL[_pid]["text"] += _t
+        if "Second-round conventions" not in LEVEL[_pid]["note"]:
+            LEVEL[_pid]["note"] += _GEN2_NOTE
         if "regenerated from the Go source" not in LEVEL[_pid]["technique"]:
             LEVEL[_pid]["technique"] += _GEN_TECH
